@@ -202,6 +202,72 @@ def checker_cmp(ex, rel, func):
     return run
 
 
+def checker_width_src(ex, rel, func):
+    """where the checker takes the expected number of nodes from: `torch.arange(actions.size(1), …)` (the WIDTH of
+    the action tensor → false) or an expression over the instance `td[...]` (→ true)"""
+    def run():
+        fn = _fn(ex, rel, func)
+        if fn is None:
+            return None
+        hits = []
+        for n in ast.walk(fn):
+            if isinstance(n, ast.Call) and ex.norm(n.func) == "torch.arange" and n.args:
+                a = ex.norm(n.args[0])
+                if a in ("actions.size(1)", "actions.shape[1]", "actions.size(-1)", "actions.shape[-1]"):
+                    hits.append("false")
+                elif "td[" in a and "actions" not in a:
+                    hits.append("true")
+        return hits[0] if len(hits) == 1 else None
+    return run
+
+
+def atsp_gather_order(ex):
+    """`distance_matrix[batch_idx, X, Y]` with X/Y resolved through `nodes_src = actions`,
+    `nodes_tgt = torch.roll(actions, …)`:  (src, tgt) → true, (tgt, src) → false"""
+    def run():
+        fn = _fn(ex, A, "ATSPEnv._get_reward")
+        if fn is None:
+            return None
+        kind = {}
+        for n in ast.walk(fn):
+            if isinstance(n, ast.Assign) and len(n.targets) == 1 and isinstance(n.targets[0], ast.Name):
+                v = n.value
+                if ex.norm(v) == "actions":
+                    kind[n.targets[0].id] = "src"
+                elif isinstance(v, ast.Call) and ex.norm(v.func) == "torch.roll" and v.args and ex.norm(v.args[0]) == "actions":
+                    kind[n.targets[0].id] = "tgt"
+        kind.setdefault("actions", "src")
+        for n in ast.walk(fn):
+            if isinstance(n, ast.Subscript) and ex.norm(n.value) == "distance_matrix" and isinstance(n.slice, ast.Tuple) \
+                    and len(n.slice.elts) == 3 and ex.norm(n.slice.elts[0]) == "batch_idx":
+                ks = [kind.get(ex.norm(e)) for e in n.slice.elts[1:]]
+                if ks == ["src", "tgt"]:
+                    return "true"
+                if ks == ["tgt", "src"]:
+                    return "false"
+        return None
+    return run
+
+
+def pdp_check_prepend(ex):
+    """`if not self.force_start_at_depot: actions = torch.cat((zeros…, actions), dim=-1)` → true;
+    `if self.force_start_at_depot: …` → false"""
+    def run():
+        fn = _fn(ex, P, "PDPEnv.check_solution_validity")
+        if fn is None:
+            return None
+        for n in ast.walk(fn):
+            if isinstance(n, ast.If) and any(isinstance(b, ast.Assign) and ex.norm(b.targets[0]) == "actions" and "torch.cat" in ex.norm(b.value)
+                                            and "zeros_like" in ex.norm(b.value) for b in n.body):
+                t = ex.norm(n.test)
+                if t == "notself.force_start_at_depot":
+                    return "true"
+                if t == "self.force_start_at_depot":
+                    return "false"
+        return None
+    return run
+
+
 def register(ex):
     # ---- done tests
     ex.probe("tspDoneCmp", "Cmp", ".eq", "tsp/env.py:TSPEnv._step  `torch.sum(available, dim=-1) == 0`",
@@ -254,3 +320,15 @@ def register(ex):
     ex.probe("smtwtpRewardShape", "Bool × Bool", "(true, true)",
              "smtwtp/env.py:SMTWTPEnv._get_reward  (cumsum of the gathered processing times along the job axis, tardiness = presum - due)",
              smtwtp_shape(ex))
+    # ---- where the checkers take the expected width from (the known width-derived finding; a maintainer's fix flips these)
+    ex.probe("tspCheckWidthFromInst", "Bool", "false", "tsp/env.py:TSPEnv.check_solution_validity  `torch.arange(actions.size(1))` (false) vs. a size read from td (true)",
+             checker_width_src(ex, T, "TSPEnv.check_solution_validity"))
+    ex.probe("atspCheckWidthFromInst", "Bool", "false", "atsp/env.py:ATSPEnv.check_solution_validity  `torch.arange(actions.size(1))` (false) vs. a size read from td (true)",
+             checker_width_src(ex, A, "ATSPEnv.check_solution_validity"))
+    ex.probe("pdpCheckWidthFromInst", "Bool", "false", "pdp/env.py:PDPEnv.check_solution_validity  `torch.arange(actions.size(1))` (false) vs. a size read from td (true)",
+             checker_width_src(ex, P, "PDPEnv.check_solution_validity"))
+    ex.probe("pdpCheckPrependWhenNotForced", "Bool", "true", "pdp/env.py:PDPEnv.check_solution_validity  `if not self.force_start_at_depot: actions = cat(0, actions)`",
+             pdp_check_prepend(ex))
+    # ---- ATSP: index order of the cost-matrix gather
+    ex.probe("atspGatherSrcFirst", "Bool", "true", "atsp/env.py:ATSPEnv._get_reward  `distance_matrix[batch_idx, nodes_src, nodes_tgt]` (source index first)",
+             atsp_gather_order(ex))
